@@ -439,6 +439,8 @@ def _arrays(model, res, c, g, acts, opaque, E):
             ('array op scalar', lambda: arr('a'), lambda: Sym('int', 's'), [(on, 'a0', 's'), (on, 'a1', 's')]),
             ('scalar op array', lambda: Sym('int', 's'), lambda: arr('a'), [(on, 's', 'a0'), (on, 's', 'a1')]),
             ('array op array', lambda: arr('a'), lambda: arr('b'), [(on, 'a0', 'b0'), (on, 'a1', 'b1')]),
+            ('one-item array op one-item array', lambda: arr('a', 1), lambda: arr('b', 1), [(on, 'a0', 'b0')]),
+            ('three-item array op three-item array', lambda: arr('a', 3), lambda: arr('b', 3), [(on, 'a0', 'b0'), (on, 'a1', 'b1'), (on, 'a2', 'b2')]),
             ('nested array op scalar', lambda: nested('a'), lambda: Sym('int', 's'),
              [[(on, 'a00', 's'), (on, 'a01', 's')], [(on, 'a10', 's'), (on, 'a11', 's')]]),
             ('scalar op nested array', lambda: Sym('int', 's'), lambda: nested('a'),
